@@ -216,7 +216,8 @@ def int_boundary(r, crate):
         r.anchor_missing("parse::Parser::<R>::parse_num_tail")
         return
     nv = {x["name"]: x["idx"] for x in crate.adts["number::N"]["variants"]}
-    inl = lambda a, b: b.path in lex.WRAPPERS or b.file.endswith("number.rs")
+    hi = lex.helper_inline(crate)
+    inl = lambda a, b: b.file.endswith("number.rs") or hi(a, b)
     n = 0
     for mag in (0, 1, (1 << 63) - 1, 1 << 63, (1 << 63) + 1, (1 << 64) - 1):
         for pos in (1, 0):
